@@ -3,7 +3,7 @@
     of the handler's blocking read calls (Model/Lifecycle.v). *)
 From Coq Require Import String Ascii List Bool ZArith NArith Arith.
 From Raven Require Import Base.GoStr Model.Lifecycle Model.LifecycleSrv Spec.Lifecycle
-  Model.LifecycleWrite Model.LifecycleSaslLoop Model.LifecycleAuth Proof.LifecycleAuth Gen.LifecycleFacts Proof.Lifecycle Proof.LifecycleSrv Proof.LifecycleWrite Proof.LifecycleSaslLoop.
+  Model.LifecycleWrite Model.LifecycleSaslLoop Model.LifecycleIdle Proof.LifecycleIdle Model.LifecycleAuth Proof.LifecycleAuth Gen.LifecycleFacts Proof.Lifecycle Proof.LifecycleSrv Proof.LifecycleWrite Proof.LifecycleSaslLoop.
 Import ListNotations.
 
 (** (a) IMAP, client gone. From EVERY state — IDLE included since fixes C20-1
@@ -195,6 +195,30 @@ Theorem c20_sasl_loop_agrees : forall (shut : bool) (s : tstate) (dt : N) (l : s
 Proof. exact tstep_agrees. Qed.
 Print Assumptions c20_sasl_loop_agrees.
 
+(** The IDLE poll loop as rounds (Model/LifecycleIdle.v): poll of the store —
+    which may FAIL — then the read with its 50 ms deadline, then the autologout
+    test. For EVERY sequence of poll outcomes (success / failure in any
+    pattern) and round durations: a client that is gone (or says DONE) is
+    noticed in the very round in which that is so ... *)
+Theorem c20_idle_noticed_within_one_round : forall (T : N) (pre : list (poll * N * client)) (e : N) (p : poll) (d : N) (c : client)
+    (post : list (poll * N * client)),
+  c = Gone \/ c = SaysDone ->
+  exists x t, idle_run false T e (pre ++ (p, d, c) :: post) = Some (x, t) /\ (t <= e + durations pre + d)%N.
+Proof. exact noticed_within_one_round. Qed.
+Print Assumptions c20_idle_noticed_within_one_round.
+
+(** ... and a silent one is logged out at idleUntil + at most one round, and surely once the rounds add up to more than the limit *)
+Theorem c20_idle_autologout_time : forall (T Dmax : N) (rounds : list (poll * N * client)) (e : N),
+  (forall p d c, In (p, d, c) rounds -> (d <= Dmax)%N) ->
+  forall x t, idle_run false T e rounds = Some (x, t) -> x = XAutologout -> (e <= T)%N -> (t <= T + Dmax)%N.
+Proof. exact autologout_time. Qed.
+Print Assumptions c20_idle_autologout_time.
+
+Theorem c20_idle_silent_progress : forall (T : N) (rounds : list (poll * N * client)) (e : N),
+  (e <= T)%N -> (T < e + durations rounds)%N -> idle_run false T e rounds <> None.
+Proof. exact silent_progress. Qed.
+Print Assumptions c20_idle_silent_progress.
+
 (** The call to the authentication backend (Model/LifecycleAuth.v). An
     http.Client with Client.Timeout = T is back within T whatever the backend
     does: never accepts, accepts and never answers, answers its headers and
@@ -295,6 +319,17 @@ Proof. exact unbounded_client_wedged. Qed.
 
 Example c20_ssl_silence_time : i_silence_ms 3 i_init_ssl = Some 30000%N.
 Proof. exact ssl_silence_time. Qed.
+
+(** a loop whose failing poll skips the read (seeded change C20-4) never
+    terminates on "all polls fail", whatever the client does *)
+Example c20_skipping_idle_loop_never_ends : forall (T : N) (rounds : list (poll * N * client)) (e : N),
+  (forall p d c, In (p, d, c) rounds -> p = PFail) -> idle_run true T e rounds = None.
+Proof. exact skipping_loop_never_ends. Qed.
+
+Example c20_idle_rounds_example :
+  idle_run false 1800000 0 [(PFail, 550, Silent); (PFail, 10550, Silent); (PFail, 550, Gone)]%N = Some (XGone, 11650%N) /\
+  idle_run true 1800000 0 [(PFail, 550, Silent); (PFail, 10550, Silent); (PFail, 550, Gone)]%N = None.
+Proof. vm_compute. split; reflexivity. Qed.
 
 Example c20_double_shutdown_returns :
   snd (srv_run SvcLMTP srv_init [Shutdown; Shutdown]) = [OShutReturned; OShutReturned].
